@@ -1067,6 +1067,24 @@ def gen_wkdibe(rng, n, tier):
             c = rng.choice(lists); S.adjustpre(rb, p0, b, c)
         ctp = S.encrypt(p0, None, pre=rb)
         km = S.key("wk_ndkeygen", p0, m0, b, random=False); S.decrypt(ctp, km)
+    # flagged (omit-from-keys) entries with non-zero identifiers on the ciphertext side, in every position of the merge: appended behind
+    # the last entry of `from` (tail), before its first entry (head), between two of its entries, replacing an unflagged entry, and into
+    # an empty `from`; the adjusted product must be the product of `to` (every listed (slot, id) counts), a key that has the slot HIDDEN
+    # must not open the ciphertext, the exact-match key must
+    if l >= 4:
+        flag_cases = [([(0, vals[0], False)], [(0, vals[0], False), (3, vals[3], True)]),
+                      ([(2, vals[2], False)], [(0, vals[0], True), (2, vals[2], False)]),
+                      ([(0, vals[0], False), (3, vals[3], False)], [(0, vals[0], False), (1, vals[1], True), (3, vals[3], False)]),
+                      ([(1, vals[1], False)], [(1, vals[1], True)]),
+                      ([], [(2, vals[2], True)]),
+                      ([(0, vals[0], True)], [(0, vals[0], True), (1, vals[1], True), (2, vals[2], True), (3, vals[3], True)])]
+        for (fa_, ta_) in flag_cases:
+            rf_ = S.pre(p0, fa_); rt_ = S.adjustpre(rf_, p0, fa_, ta_)
+            ctf_ = S.encrypt(p0, None, pre=rt_)
+            plain = [(i, v, False) for (i, v, h) in ta_]
+            S.decrypt(ctf_, S.key("wk_ndkeygen", p0, m0, plain, random=False))
+            hid = [(i, v, h) for (i, v, h) in ta_]          # the flagged slots hidden in the key: must not open
+            if any(h for (_, _, h) in hid): S.decrypt(ctf_, S.key("wk_ndkeygen", p0, m0, hid, random=False), "ne")
     S.adjustpre(S.pre(p0, [(0, (1 << 256) - 1, False)]), p0, [(0, (1 << 256) - 1, False)], [(0, 0, False)])
     S.adjustpre(S.pre(p0, [(1, (1 << 256) - 1, False)]), p0, [(1, (1 << 256) - 1, False)], [])
     # adjust_nondelegable == qualifying the parent directly
@@ -1110,6 +1128,16 @@ def gen_wkdibe(rng, n, tier):
                 i0 = pat.index("f"); cp = pat[:i0] + "x" + pat[i0 + 1:]
                 kq = S.key("wk_qualify", p0, kri, fixed + [(i0, vals[i0], False)]); fx = sorted(fixed + [(i0, vals[i0], False)])
                 ctq = S.encrypt(p0, fx); S.decrypt(ctq, kq)
+    # signatures with keys from EVERY derivation path, in particular leaf keys made with the omit-all-unless-present flag (they have no
+    # free slots left but must still sign: bsig is not a delegation element)
+    for (k, pat) in parents[:3]:
+        base = [(i, vals[i], False) for i, ch in enumerate(pat) if ch == "x"]
+        free = [i for i, ch in enumerate(pat) if ch == "f"]
+        tgt = sorted(base + [(i, S.val(), False) for i in free[:1]])
+        for (op_, kw) in (("wk_ndqualify", dict(omitAll=True, random=False)), ("wk_qualify", dict(omitAll=True)), ("wk_ndqualify", dict(random=False))):
+            leaf = S.key(op_, p0, k, tgt, **kw)
+            msg_ = rng.choice([1, R - 1, rng.getrandbits(256)])
+            sg_ = S.sign(p0, leaf, tgt, msg_); S.verify(p0, tgt, sg_, msg_); S.verify(p0, tgt, sg_, (msg_ + 1) % (1 << 256))
     # signatures
     for (k, pat) in klist[: (4 if tier != "thorough" else 20)]:
         fixed = [(i, vals[i], False) for i, ch in enumerate(pat) if ch == "x"]
